@@ -179,3 +179,158 @@ def combined_c(pp, extra):
     a1, a2, _ = resolve_hints(pp)
     c = cconst(P_all, a1, a2, None)
     return c if np.isfinite(c) else 2 + 2 * np.linalg.norm(P_all - P_all[a1], axis=1).max() / np.linalg.norm(P_all[a2] - P_all[a1])
+
+
+# ---------------------------------------------------------------------------------------------------------------------
+# histories: a replacement on objects with a past must equal the replacement on fresh objects with the same content
+from mc.checks import histories as H
+
+RH_BASES = [dict(cell=ci, pat='CNO', subpose=4, ncopies=2, place=0, pair=[p[0] for p in pairs('CNO')].index(pn), replace_all=0, atol=0.05, fraction=1.0, noise=0)
+            for ci in (0, 2) for pn in (GROWN, 'one element changed')]
+
+
+def _rep(ctx, S, SP, RP, **kw):
+    (res, err), _ = explorer(ctx).run(lambda: call(replace_pattern_in_structure, S, SP, RP, **kw), ())
+    return res, err
+
+
+def _other_replacement(c, which):
+    if 'other' in c:
+        return c['other'](which)
+    name, rel, rp = [p for p in pairs('CNO') if p[0] == which][0]
+    return pattern_atoms(rel, rp, q0=0.9, g0=70)
+
+
+def _rh_twice(ctx, e):
+    _rep(ctx, e['S'], e['SP'], e['RP'], **e['kw'])
+
+
+def _rh_other_replacement_first(ctx, e):
+    _rep(ctx, e['S'], e['SP'], _other_replacement(e['c'], 'all elements changed'), **e['kw'])
+
+
+def _rh_identical_first(ctx, e):
+    _rep(ctx, e['S'], e['SP'], _other_replacement(e['c'], 'identical'), **e['kw'])
+
+
+def _rh_translate_replacement(ctx, e):
+    _rep(ctx, e['S'], e['SP'], e['RP'], **e['kw']); call(e['RP'].translate, np.array([0.0, 0.03, 0.0]))
+
+
+def _rh_translate_both(ctx, e):
+    _rep(ctx, e['S'], e['SP'], e['RP'], **e['kw']); v = np.array([4.0, -2.5, 1.0]); call(e['RP'].translate, v); call(e['SP'].translate, v)
+
+
+def _rh_on_replica_of_result(ctx, e):
+    r, err = _rep(ctx, e['S'], e['SP'], e['RP'], **e['kw'])
+    if err:
+        e['skip'] = 'first step raised'; return
+    e['S'] = r[0].replicate((2, 1, 1)); e['RP'] = _other_replacement(e['c'], 'one element changed')
+
+
+def _rh_on_result_with_larger_cell(ctx, e):
+    r, err = _rep(ctx, e['S'], e['SP'], e['RP'], **e['kw'])
+    if err:
+        e['skip'] = 'first step raised'; return
+    r = r[0]; r.cell = np.asarray(r.cell, float) * np.array([[1.0], [2.0], [1.0]]); e['S'] = r; e['RP'] = _other_replacement(e['c'], GROWN)
+
+
+def _rh_chain_on_result(ctx, e):
+    r, err = _rep(ctx, e['S'], e['SP'], _other_replacement(e['c'], 'one element changed'), **e['kw'])
+    if err:
+        e['skip'] = 'first step raised'; return
+    pel, pp = e['c']['pel'], e['c']['pp']
+    e['S'] = r[0]; e['SP'] = pattern_atoms(pel[:2], pp[:2], q0=-0.7, g0=90); e['RP'] = pattern_atoms([pel[0], 'Kr'], pp[:2], q0=0.3, g0=40)
+
+
+def _rh_find_then_shift(ctx, e):
+    explorer(ctx).run(lambda: call(find_pattern_in_structure, e['S'], e['SP'], atol=e['kw'].get('atol', 0.05)), ()); H.wrap_in_place(e['S'], np.array([0.21, 0.34, -0.18]))
+
+
+def _rh_replace_then_shift(ctx, e):
+    _rep(ctx, e['S'], e['SP'], e['RP'], **e['kw']); H.wrap_in_place(e['S'], np.array([-0.3, 0.15, 0.4]))
+
+
+def _rh_replace_then_translate(ctx, e):
+    _rep(ctx, e['S'], e['SP'], e['RP'], **e['kw']); call(e['S'].translate, np.array([0.003, 0.002, 0.004]))
+
+
+def _rh_copy_of_result(ctx, e):
+    r, err = _rep(ctx, e['S'], e['SP'], e['RP'], **e['kw'])
+    if err:
+        e['skip'] = 'first step raised'; return
+    e['S'] = r[0].copy(); e['RP'] = _other_replacement(e['c'], 'all elements changed')
+
+
+def _rh_nothing_found(ctx, e):
+    k = len(e['c']['pp']); e['SP'] = pattern_atoms(['Zr', 'Hf', 'Ta', 'W', 'Re', 'Os', 'Ir'][:k], e['c']['pp'], q0=-0.7, g0=90)       # elements that do not occur: nothing is replaced
+
+
+def _rh_fraction_zero(ctx, e):
+    e['kw'] = dict(e['kw'], replace_fraction=0.0)
+
+
+REPLACE_HISTORIES = [('nothing before (fresh objects)', lambda ctx, e: None), ('the same replacement once before', _rh_twice), ('another replacement with the same search-pattern object first', _rh_other_replacement_first),
+                     ('a replacement with the same coordinates and other elements first', _rh_identical_first), ('replace, translate() the replacement pattern by 0.03 A, replace', _rh_translate_replacement),
+                     ('replace, translate() both patterns, replace', _rh_translate_both), ('replace, replicate the result 2x1x1, replace in the replica', _rh_on_replica_of_result),
+                     ('replace, double the cell of the result along b, replace in it', _rh_on_result_with_larger_cell), ('replace, then a second replacement of a sub-pattern in the result', _rh_chain_on_result),
+                     ('search, shift-and-wrap the structure in place, replace', _rh_find_then_shift), ('replace, shift-and-wrap the structure in place, replace', _rh_replace_then_shift),
+                     ('replace, translate() the structure slightly, replace', _rh_replace_then_translate), ('replace, copy() the result, replace in the copy', _rh_copy_of_result),
+                     ('search pattern that does not occur', _rh_nothing_found), ('replace_fraction = 0', _rh_fraction_zero)]
+
+
+def replace_history_scenarios():
+    return [dict(rhistory=hi, base=bi) for bi in range(len(RH_BASES)) for hi in range(len(REPLACE_HISTORIES))]
+
+
+def run_replace_history(sc, ctx, build=None, extra_kw=None):
+    """-> env: objects after the history, result of the final replacement on them and on fresh equal objects, untouched / shared-data messages"""
+    if build is None:
+        base = RH_BASES[sc['base']]
+        c = build_case(base, ctx)
+    else:
+        c = build(sc, ctx)
+    e = dict(S=c['s'], SP=c['sp'], RP=c['rp'], c=c, kw=dict(atol=0.05, return_num_matches=True, **(extra_kw or {})), name=REPLACE_HISTORIES[sc['rhistory']][0])
+    REPLACE_HISTORIES[sc['rhistory']][1](ctx, e)
+    if e.get('skip'):
+        return e
+    fr = np.asarray(e['S'].positions, float) @ np.linalg.inv(np.asarray(e['S'].cell, float))
+    if fr.min() < 0 or fr.max() >= 1:
+        e['skip'] = 'the history moved an atom out of the cell'; return e
+    fS, fSP, fRP = H.fresh(e['S']), H.fresh(e['SP']), H.fresh(e['RP']) if len(e['RP'].atom_types) else Atoms()
+    inputs = [('the structure', e['S']), ('the search pattern', e['SP']), ('the replacement pattern', e['RP'])]
+    before = [raw_state(o) for _, o in inputs]
+    e['res'], e['err'] = _rep(ctx, e['S'], e['SP'], e['RP'], **e['kw'])
+    e['msgs'] = untouched(before, inputs)
+    e['fresh_ok'] = fS is not None and fSP is not None and fRP is not None
+    if e['fresh_ok']:
+        e['fres'], e['ferr'] = _rep(ctx, fS, fSP, fRP, **e['kw'])
+    if not e['err']:
+        e['result_state'] = raw_state(e['res'][0]); e['nm'] = e['res'][1]
+        e['msgs'] += alias_probe(e['res'][0], inputs, 'the returned structure')
+    return e
+
+
+def judge_replace_history(e, sc, out, clause):
+    """violations of 'behaves like fresh objects with the same content', 'inputs untouched', 'no shared data'"""
+    if e.get('skip'):
+        out['outcomes']['history skipped'] = 1; return
+    out['evals'] += 2; out['compared'] += 1
+    desc = dict(history=e['name'], base=sc.get('base'))
+    for msg in e['msgs']:
+        out['violations'].append(viol(clause, 'history:' + ('shared-data' if 'share data' in msg else 'input-modified'), 'history "%s": %s' % (e['name'], msg), sc, case=desc))
+    if not e['fresh_ok']:
+        out['outcomes']['history: no fresh equivalent'] = 1; return
+    if bool(e['err']) != bool(e['ferr']):
+        out['violations'].append(viol(clause, 'history:exc', 'after the history "%s" the replacement %s; on freshly built objects with the same content it %s' % (
+            e['name'], 'raised %r' % (e['err'][0],) if e['err'] else 'returned a structure', 'raised %r' % (e['ferr'][0],) if e['ferr'] else 'returned a structure'), sc, case=desc)); return
+    if e['err']:
+        if type(e['err'][0]) is not type(e['ferr'][0]):
+            out['violations'].append(viol(clause, 'history:exc', 'after the history "%s" the replacement raised %r, on fresh objects %r' % (e['name'], e['err'][0], e['ferr'][0]), sc, case=desc))
+        return
+    fs = raw_state(e['fres'][0])
+    if e['result_state'] != fs or e['nm'] != e['fres'][1]:
+        d = [i for i, (x, y) in enumerate(zip(e['result_state'], fs)) if x != y]
+        out['violations'].append(viol(clause, 'history:differs', 'after the history "%s" the replacement (%r matches) gives a structure that differs from the one obtained on freshly built objects with the same content (%r matches) in raw-state fields %r; e.g. atoms %d vs %d' % (
+            e['name'], e['nm'], e['fres'][1], d[:6], len(e['res'][0].atom_types) if False else e['result_state'][1][0][0] if e['result_state'][1][0] else 0, fs[1][0][0] if fs[1][0] else 0), sc, case=desc))
+    out['outcomes']['history replaced=%r' % (e['nm'],)] = 1; out['nontrivial'] = 1 if e['nm'] else 0
